@@ -422,9 +422,14 @@ def specOn (j : Json) : Except String Json := do
   let mut rows : Array Json := #[]
   let mut holds : Option Bool := some true
   let mut why := ""
-  if !(kindOk declared facts.kind facts.width) then
+  let kindName := match facts.kind with | .int => "int" | .bool => "bool" | .float => "float"
+  let widthName := match facts.width with | 0 => "int" | 1 => "float" | _ => "double"
+  let kindWhy := s!"column declared {declared.name} where Python's result is {kindName}-valued and the widest operand folded in is {widthName}"
+  let kindBad := !(kindOk declared facts.kind facts.width)
+  let mut valueBad := false
+  if kindBad then
     holds := some false
-    why := s!"column declared {declared.name} for a result of Python kind {repr facts.kind} and operand width {facts.width}"
+    why := kindWhy
   let mut idx := 0
   for s in samples do
     let envs ← sampleEnvs f s
@@ -447,14 +452,16 @@ def specOn (j : Json) : Except String Json := do
       | some p =>
         match c with
         | none =>
-          if holds != some false then
+          if !valueBad then
             match code, observed with
-            | .error e, none => holds := none; why := s!"emitted text not interpretable: {e}"
-            | _, _ => holds := some false; why := s!"sample {idx}: the emitted code has no value (ill-formed C++ or undefined behaviour) where Python computes {(pvJson p).compress}"
+            | .error e, none => if holds != some false then holds := none; why := s!"emitted text not interpretable: {e}"
+            | _, _ =>
+              valueBad := true; holds := some false
+              why := s!"sample {idx}: the emitted code has no value (ill-formed C++ or undefined behaviour) where Python computes {(pvJson p).compress}" ++ (if kindBad then "; " ++ kindWhy else "")
         | some cv =>
-          if !(decide (ColOk declared facts.kind facts.width cv p)) && holds != some false then
-            holds := some false
-            why := s!"sample {idx}: column holds {(cvJson cv).compress} (declared {declared.name}), Python computes {(pvJson p).compress}"
+          if !(decide (ColOk declared facts.kind facts.width cv p)) && !valueBad && (!(decide (numEq cv p)) || cv.ctype != declared) then
+            valueBad := true; holds := some false
+            why := s!"sample {idx}: column holds {(cvJson cv).compress} (declared {declared.name}), Python computes {(pvJson p).compress}" ++ (if kindBad then "; " ++ kindWhy else "")
     idx := idx + 1
   return Json.mkObj [("holds", match holds with | some b => Json.bool b | none => Json.null), ("why", why),
     ("mustAccept", facts.mustAccept), ("excluded", facts.excluded), ("rows", Json.arr rows),
